@@ -300,9 +300,10 @@ func (r *Run) Finish(verifDir string, rules []*ruleInfo, started time.Time, seed
 }
 
 type selfValResult struct {
-	Programs int      `json:"programs"`
-	Fired    int      `json:"mutants_fired"`
-	Silent   int      `json:"benign_silent"`
-	Skipped  int      `json:"skipped_anchor_missing"`
-	Failed   []string `json:"failed,omitempty"`
+	Programs   int      `json:"programs"`
+	Fired      int      `json:"mutants_fired"`
+	Silent     int      `json:"benign_silent"`
+	Skipped    int      `json:"skipped_anchor_missing"`
+	SkippedIDs []string `json:"skipped_ids,omitempty"`
+	Failed     []string `json:"failed,omitempty"`
 }
